@@ -113,6 +113,15 @@ def layout_params(case, S, layout):
     return np.broadcast_to(mat, (case['n_ids'],) + mat.shape).copy()
 
 
+def ordered(a, order):
+    """the same array in another memory layout: column-major, or a transposed view of the transposed copy"""
+    if order == 'F':
+        return np.asfortranarray(a)
+    if order == 'T':
+        return np.ascontiguousarray(a.T).T
+    return a
+
+
 def typed(a, typ):
     """the same numbers as a float array, an integer array or nested lists of Python ints"""
     if typ == 'float':
@@ -146,7 +155,7 @@ def whole(case):
     return c
 
 
-def run_chi(case, layout=None, typ='float'):
+def run_chi(case, layout=None, typ='float', order='C'):
     import chi
     S = [Sub(**d) for d in case['subs']]
     layout = layout or case['layout']
@@ -162,6 +171,12 @@ def run_chi(case, layout=None, typ='float'):
     # (covariates and parameter matrices / tensors are documented as arrays; lists only where vectors are taken)
     atyp = 'int-array' if typ == 'int-list' else typ
     kw = {} if case.get('chis') is None else {'covariates': typed(np.array(case['chis'], dtype=float), atyp)}
+    if order != 'C':
+        X = ordered(X, order)
+        U = None if U is None else ordered(U, order)
+        if 'covariates' in kw:
+            kw['covariates'] = ordered(kw['covariates'], order)
+        before = (par.copy(), X.copy(), None if U is None else U.copy())
     if typ != 'float':
         par, X = typed(par, typ if par.ndim == 1 else atyp), typed(X, typ)
         before = (copy.deepcopy(par), copy.deepcopy(X), before[2])
@@ -336,6 +351,29 @@ def type_problem(case):
     return None
 
 
+def order_problem(case, res):
+    """the values and sensitivities depend on the numbers handed over, not on the memory layout of the arrays"""
+    for order in ('F', 'T'):
+        try:
+            other = run_chi(case, order=order)
+        except Exception as e:
+            return 'observations passed in memory layout %s: %s: %s' % (order, type(e).__name__, e)
+        if (math.isfinite(other['ll']) != math.isfinite(res['ll'])) or (
+                math.isfinite(res['ll']) and core.relerr(other['ll'], res['ll']) > 1e-12):     # (summation order)
+            return 'observations in memory layout %s give the log-likelihood %r, C-ordered ones %r' % (
+                order, other['ll'], res['ll'])
+        if math.isfinite(res['ll']):
+            for k in res['forms']:
+                a = np.concatenate([np.ravel(np.asarray(x, dtype=float)) for x in res['forms'][k]])
+                b = np.concatenate([np.ravel(np.asarray(x, dtype=float)) for x in other['forms'][k]])
+                if a.shape != b.shape or not np.allclose(a, b, rtol=1e-12, atol=1e-12, equal_nan=True):
+                    return ('%s sensitivities for observations in memory layout %s are %r; for the same numbers '
+                            'C-ordered %r' % (k, order, b.tolist(), a.tolist()))
+        if other.get('mutated'):
+            return 'an input array (memory layout %s) was modified' % order
+    return None
+
+
 def oracle(case):
     import chi
     S = [Sub(**d) for d in case['subs']]
@@ -361,7 +399,7 @@ def oracle(case):
             return 'layout %s gives ll=%r reduce=%r psi=%r; layout %s gives ll=%r reduce=%r psi=%r' % (
                 case['layout'], res['ll'], res['forms']['reduce'], res['psi'], lay, other['ll'],
                 other['forms']['reduce'], other['psi'])
-    tp = type_problem(case)
+    tp = type_problem(case) or order_problem(case, res)
     if tp:
         return tp
     if ref == -math.inf:
@@ -470,7 +508,7 @@ def run(ck):
                         sp = 'the parameter layout changes the result: %s gives %r, %s gives %r' % (
                             case['layout'], (res['ll'], res['forms']['reduce']), lay, (o['ll'], o['forms']['reduce']))
                         break
-            sp = sp or type_problem(case)
+            sp = sp or type_problem(case) or order_problem(case, res)
         except Exception as e:
             ck.violation(key_of(case, ''), 'chi raised %s: %s' % (type(e).__name__, e), case)
             continue
